@@ -1004,7 +1004,7 @@ class C21(Spec):
 
     def generate(self, rng, idx, tier):
         prog = gen_program(rng)
-        fault = rng.choice(["none", "none", "none", "truncate", "delete", "delete_default", "unused", "unused_list", "reuse", "unclosed_bb", "unclosed_sub"])
+        fault = rng.choice(["none", "none", "none", "truncate", "delete", "delete_default", "unused", "unused_list", "junk_list", "reuse", "unclosed_bb", "unclosed_sub"])
         return {"prog": prog, "bits_seed": rng.randrange(1 << 30), "nbytes": rng.choice([64, 64, 200]), "fault": fault, "fsel": rng.randrange(1 << 16), "ones": rng.random() < 0.2, "plain": rng.random() < 0.5}
 
     def shrink(self, case):
@@ -1150,7 +1150,7 @@ class C21(Spec):
         ctx_in = _copy.deepcopy(ctx1)
         expect_ser = None
         defaults = {}
-        if fault in ("delete", "delete_default", "unused", "unused_list"):
+        if fault in ("delete", "delete_default", "unused", "unused_list", "junk_list"):
             pairs = contexts_of(prog, ctx_in)
             if fault in ("delete", "delete_default"):
                 cands = []
@@ -1186,6 +1186,16 @@ class C21(Spec):
                 else:
                     c[free[0]] = 123
                     expect_ser = (bs_exc.UnusedTargetError,)
+            elif fault == "junk_list":
+                # a non-list value provided under a list target: it can be
+                # neither used nor ignored, so serialisation has to fail
+                cands = [(c, o["t"]) for c, p in pairs for o in p if o["op"] == "declare_list"]
+                if not cands:
+                    fault = "none"
+                else:
+                    c, t = fr.choice(cands)
+                    c[t] = fr.choice([0, False, None, "", {}, 5, "abc", {"x": 1}])
+                    expect_ser = (Exception,)
             else:
                 cands = [(c, o["t"]) for c, p in pairs for o in p if o["op"] == "declare_list"]
                 if not cands:
